@@ -916,6 +916,39 @@ def default_rules(F, R, nm, d, m, cs):
              where=b["span"])
 
 
+HIJ_ITEMS = ("ALIGN", "MIN_SIZE", "SIZE", "size", "ptr_from_bytes", "ptr_to_bytes", "from_bytes_unchecked", "from_mut_bytes_unchecked", "as_bytes",
+             "as_mut_bytes", "new_in_place", "assign_in_place", "validate_unchecked", "validate_ptr", "validate", "from_bytes", "from_mut_bytes",
+             "default_in_place", "default_emplacer", "emplace", "emplace_unchecked")
+
+
+def hygiene_rules(F, R):
+    """H1: the corpus types H* (and USInh / UEInh / SDefHij) carry inherent items with the name and signature of every item of the flatty
+    traits. Code generated by #[flat] (bodies from expansion) must name trait items through the trait: no such body may reference one of
+    the inherent items - if it does, a user type with an item of that name silently replaces the trait's in generated (partly unsafe) code."""
+    import json as _json
+    pat = re.compile(r"flatty_corpus::(H\w+|USInh|UEInh|SDefHij)::(%s)\b" % "|".join(HIJ_ITEMS))
+    carriers = {a for a in F.adts if re.match(r"flatty_corpus::(H\w+|USInh|UEInh|SDefHij)$", a)}
+    n = 0
+    seen = set()
+    for b in F.poly(krate="flatty_corpus"):
+        if not b.get("from_expansion"):
+            continue
+        n += 1
+        txt = _json.dumps({k: v for k, v in b.items() if k not in ("id", "def", "parent", "name", "impl", "span")})
+        for m in pat.finditer(txt):
+            key = (b["def"], m.group(1), m.group(2))
+            if key in seen:
+                continue
+            seen.add(key)
+            R.ob("H1.no-hijack", short(b["def"]), "%s::%s" % (m.group(1), m.group(2)), False,
+                 "%s (generated by #[flat]) names `%s` so that the inherent item `%s::%s` of the user's type is used instead of the trait's" % (
+                     short(b["def"]), m.group(2), m.group(1), m.group(2)), where=b["span"])
+    R.ob("H1.no-hijack", "flatty_corpus", "generated-bodies", len(carriers) >= 9 and n >= 100,
+         "generated bodies reference no inherent item that shadows a trait item (%d generated bodies scanned, %d carrier types with inherent "
+         "look-alikes of %d trait item names)" % (n, len(carriers), len(HIJ_ITEMS)), where="corpus")
+    R.floor("H1", "generated bodies scanned", n, 100)
+
+
 def tag_accept_rules(F, R):
     """V2: for every field-less repr(int) enum with a FlatValidate impl (generated Tag enums, C-like #[flat] enums, Bool):
     the set of raw values reaching Ok equals the set of declared discriminants."""
